@@ -503,7 +503,13 @@ func (w *SrvWork) RunPhases() bool {
 // left to the property's own rules.
 func (w *SrvWork) CheckReplies(skip func(q *wReq) bool) {
 	for ci, sc := range w.sys.Conns {
-		if ci >= len(w.setupOK) || !w.setupOK[ci] {
+		if ci >= len(w.setupOK) {
+			continue
+		}
+		if !w.setupOK[ci] {
+			if !sc.Peer.EOF && !sc.Clnt.Closed() && (skip == nil || len(w.byConn[ci]) == 0 || !skip(w.byConn[ci][0])) {
+				w.x.Violate("r3-no-reply", "conn %d: the setup phase (Tversion, Tattach, walks, opens) never completed: a request got no reply", ci)
+			}
 			continue
 		}
 		dotu := sc.Peer.Dotu
